@@ -12,7 +12,7 @@ RULE = ('captions of 1-4 uniquely tagged lines over printable Unicode with a wei
         'colour class that emits no markup) placed at any node boundary including between two breaks, '
         'lines split into several text nodes at spaces; 1-3 languages for DFXP/SAMI; x 7 writers. Output '
         'parsed by the independent parser of the format; per cue the non-empty whitespace-normalised '
-        'lines must equal the caption\'s. Non-trivial: a metacharacter of the target format or an empty '
+        'lines must equal the caption\'s. Some sets repeat a text inside a language. Non-trivial: a metacharacter of the target format or an empty '
         'line or a style node is present.')
 ANCHORS = ['pycaption.dfxp.base:DFXPWriter._encode', 'pycaption.dfxp.base:DFXPWriter._recreate_text',
            'pycaption.dfxp.base:DFXPWriter._recreate_span',
